@@ -46,3 +46,8 @@ def crc_of(data):
     """CRC-16/XMODEM of a whole byte string (the peer's own computation)"""
     import binascii
     return binascii.crc_hqx(bytes(data), 0)
+
+
+def segment7(data, start):
+    """the seven bytes of data from position start, zero-padded behind the end of data (one CAN segment payload)"""
+    return (bytes(data[start:start + 7]) + bytes(7))[:7]
